@@ -311,9 +311,72 @@ R_LO = (1, 0, None)
 R_HI = (0, 1, None)
 
 
+def inst_store_over_regridded_source(kind):
+    """store(y, target) where the optimizer moves y onto other chunks than it advertises (a reversed sum of differently
+    chunked operands; a native sliding-window reduction): store hands every block the slice of the target that belongs to it,
+    computed from the chunks y advertises at the call -- so in the lowered graph the source argument of the store step must
+    still have exactly those chunks (decided structurally, on the real store / map_blocks / optimizer; the writes themselves
+    are decided by the other instances)"""
+    def body(E):
+        import builtins
+
+        from . import catalog
+        from .common import _walk
+
+        w = catalog.W(E)
+        if kind == "reversed-sum":
+            prog = catalog.p_slice(w, catalog._add_concrete(w, E, (1, 1, 4), (1, 4, 1)), catalog.raw_index(E, ((0, 0, -1),)))
+        else:
+            prog = catalog.p_sliding_sum(w, E, catalog.source(w, E, "x", (4,), chunks=[(1, 1, 1, 1)]), 0)
+        coll = w.fn(catalog.NC, "new_collection")(prog.node)
+        adv = tuple(map(tuple, coll.chunks))
+        target = np.empty(tuple(int(sum(c)) for c in adv))
+        stored = w.fn("dask_array.io._store", "store")(coll, target, compute=False, return_stored=True, lock=False)
+        for stage in ("lowered", "materialized"):
+            st = catalog.stages(E, w, stored.expr, {stage})[stage]
+            seen = 0
+            for n in _walk(st):
+                real = builtins.type(n).__dict__.get("_symx_real", builtins.type(n))
+                if real.__name__ != "Blockwise":
+                    continue
+                args = list(n.args)
+                deps = [a for a in args[::2] if builtins.type(a).__name__ == "ArraySliceDep"]
+                arrs = [a for a in args[::2] if hasattr(a, "_meta")]
+                for d in deps:
+                    seen += 1
+                    for a in arrs:
+                        E.ensure(f"{stage}-source-blocks-are-the-blocks-the-target-slices-were-cut-for",
+                                 tuple(map(tuple, a.chunks)) == tuple(map(tuple, d.chunks)))
+            E.ensure(f"{stage}-store-step-found", seen >= 1)
+
+    def api(values):
+        import dask_array as da
+
+        if kind == "reversed-sum":
+            x = np.arange(6.0)
+            y = (da.from_array(x, chunks=((1, 1, 4),)) + da.from_array(x * 10, chunks=((1, 4, 1),)))[::-1]
+            want = (x + x * 10)[::-1]
+        else:
+            W_ = values.get("window", 2)
+            x = np.arange(4.0) ** 2
+            y = da.sliding_window_view(da.from_array(x, chunks=1), W_).sum(axis=-1)
+            want = np.lib.stride_tricks.sliding_window_view(x, W_).sum(-1)
+        t = np.full(want.shape, -7.0)
+        try:
+            da.store(y, t, lock=False, scheduler="sync")
+        except Exception as ex:
+            return dict(ok=False, detail=f"store raised {type(ex).__name__}: {str(ex)[:100]}")
+        return dict(ok=bool(np.array_equal(t, want)), detail=f"target after store {t.tolist()}, expected {want.tolist()}")
+
+    return Instance(f"store_over_regridded_source[{kind}]", body, dict(kind=kind), unit="store + map_blocks + optimizer (layout of the ArraySliceDep payload)",
+                    api_replay=api)
+
+
 def instances(tier):
     q = tier == "quick"
     out = []
+    out.append(inst_store_over_regridded_source("reversed-sum"))
+    out.append(inst_store_over_regridded_source("sliding-sum"))
     nbs = [1, 2, 3] if q else [1, 2, 3, 4]
     for m in nbs:
         out.append(inst_store([(m,)], [None]))
